@@ -624,29 +624,27 @@ def _read_hook(eng, args, kw, st, fr, k, node):
 
 
 def _get_splits_hook(eng, args, kw, st, fr, k, node):
-    """strax.Rechunker.get_splits(data, size, min_gap): ASSUMED contract (bounded stand-in C07): indices 0 = s0 < s1 < ... < N
+    """strax.Rechunker.get_splits(data, size, min_gap): through its own contract (proved below): indices 0 = s0 < s1 < ... < N
     such that before every s_k (k >= 1) there is a gap larger than min_gap to ALL earlier rows."""
-    eng.assumptions.add("assumed contract of Rechunker.get_splits (checked by the bounded rechunker stand-in only): split indices start "
-                        "at 0, increase strictly, stay below the row count, and each one follows a gap > min_gap to every earlier row")
-    fr.on_raise(Exc("ValueError:target"), st)
+    from pyvc.library import contract_call
+    eng.assumptions.add("target sizes handed to Rechunker.get_splits are non-negative (a configuration value)")
     data = args[0]
     from pyvc.engine import Arr as _Arr
     if not isinstance(data, _Arr):
         # (reachable only on the infeasible path future + rechunk: there the obligation holds vacuously)
         eng.oblige("rechunk-on-load", "get_splits is given the rows of the chunk that was read", st, z3.BoolVal(False), node)
         return k(Opq(eng.fresh("split_indices", "V")), st)
-    s_arr, st = make_symbolic(eng, eng.new_base("split_indices"), ArrT("int"), st, set())
-    S = eng.S
-    sv, dv = eng.resolve(s_arr, st.heap), eng.resolve(data, st.heap)
-    facts = [sv.n >= 1, sv.at(0) == 0,
-             S.forall(0, sv.n - 1, lambda j: sv.at(j) < sv.at(j + 1)),
-             S.forall(0, sv.n, lambda j: S.And(0 <= sv.at(j), sv.at(j) < S.max(dv.n, 1))),
-             S.forall(1, sv.n, lambda j: S.forall(0, dv.n, lambda r: S.Implies(r < sv.at(j), dv.f("endtime", r) + MIN_GAP < dv.f("time", sv.at(j)))))]
-    for f in facts:
-        st = st.assume(S.b(f))
-    g = dict(st.ghost)
-    g["py:S"] = s_arr
-    return k(s_arr, St(st.env, st.heap, st.pc, g))
+    size = eng.fresh("target_size")
+    st = st.assume(size >= 0)
+
+    def got(s_arr, s2):
+        g = dict(s2.ghost)
+        g["py:S"] = s_arr
+        return k(s_arr, St(s2.env, s2.heap, s2.pc, g))
+    # its ValueError ("Target size is too small" / "Trapped in infinite loop") is kept apart from the callers' own ValueErrors
+    fr2 = fr.with_(on_raise=lambda exc, s: fr.on_raise(Exc("ValueError:target") if exc.cls == "ValueError" else exc, s))
+    return contract_call(eng, REG.contracts["strax/chunk.py:Rechunker.get_splits"], [data, size, args[2] if len(args) > 2 else z3.IntVal(MIN_GAP)],
+                         {}, st, fr2, got, node)
 
 
 def _np_diff_hook(eng, args, kw, st, fr, k, node):
@@ -925,3 +923,80 @@ rechunker_flush_cached = REG.add(Contract(
     FCH, "Rechunker.flush", variant="cached", params=dict(self=RECHUNKER_CACHED), ensures=_flush_ens, raises={}))
 rechunker_flush_empty = REG.add(Contract(
     FCH, "Rechunker.flush", variant="no cache", params=dict(self=RECHUNKER_EMPTY), ensures=_flush_ens, raises={}))
+
+
+# --------------------------------------------------------------------------------------
+# Rechunker.get_splits: the contract assumed above, proved
+# --------------------------------------------------------------------------------------
+import contracts.general as _G  # noqa: E402  (strax.diff contract)
+from contracts.chunk import sorted_by_time, positive_duration  # noqa: E402
+
+
+def _argwhere(eng, args, kw, st, fr, k, node):
+    """np.argwhere(mask) of a 1-D boolean vector (library model): the indices of the true entries, ascending"""
+    from pyvc.engine import Vec as _Vec
+    mask = args[0]
+    if not isinstance(mask, _Vec):
+        raise Unsupported("np.argwhere of something that is not a boolean vector")
+    eng.assumptions.add("library model: np.argwhere(mask).flatten() lists the indices of the true entries of a 1-D mask in ascending order")
+    res, st = make_symbolic(eng, eng.new_base("argwhere"), ArrT("int"), st, set())
+    S = eng.S
+    rv = eng.resolve(res, st.heap)
+    st = st.assume(S.b(S.forall(0, rv.n, lambda j: S.And(0 <= rv.at(j), rv.at(j) < mask.n, mask.fn(rv.at(j))))))
+    st = st.assume(S.b(S.forall2(0, rv.n, 0, rv.n, lambda i, j: S.Implies(i < j, rv.at(i) < rv.at(j)))))
+    st = st.assume(S.b(rv.n <= S.max(mask.n, 0)))
+    return k(res, st)
+
+
+def _np_array_of_list(eng, args, kw, st, fr, k, node):
+    """np.array(list of ints): an array with the same elements"""
+    lst = args[0]
+    cell = st.heap[lst.base]
+    res, st = make_symbolic(eng, eng.new_base("as_array"), ArrT("int"), st, set())
+    S = eng.S
+    rv = eng.resolve(res, st.heap)
+    st = st.assume(S.b(rv.n == cell["n"]))
+    st = st.assume(S.b(S.forall(0, rv.n, lambda j: rv.at(j) == z3.Select(cell["items"], j))))
+    return k(res, st)
+
+
+def _gap_ok(S, d, x, min_gap):
+    """index x follows a gap larger than min_gap to every earlier row"""
+    return S.And(1 <= x, x < d.n, S.forall(0, d.n, lambda r: S.Implies(r < x, d.f("endtime", r) + min_gap < d.f("time", x))))
+
+
+def _gs_inv(S, a):
+    d, L, g, am = a.data, a.split_indices, a.gap_indices, a.argmin
+    gv = lambda j: g.at(j)
+    return [("the list of splits starts with 0 and is strictly increasing", S.And(L.n >= 1, L.at(0) == 0,
+                                                                               S.forall(0, L.n - 1, lambda j: L.at(j) < L.at(j + 1)))),
+            ("argmin points at the gap index used last (none yet: -1)", S.And(-1 <= am, am < g.n,
+                                                                             S.Iff(am == -1, L.n == 1),
+                                                                             S.Implies(am >= 0, L.at(L.n - 1) == gv(am)))),
+            ("every split after the first follows a gap larger than min_gap", S.forall(1, L.n, lambda j: _gap_ok(S, d, L.at(j), a.min_gap))),
+            ("the loop counter", a.n >= 0)]
+
+
+def _gs_ens(S, a, r):
+    d = a.data
+    return [("the split indices start at 0, increase strictly and stay below the row count",
+             S.And(r.n >= 1, r.at(0) == 0, S.forall(0, r.n - 1, lambda j: r.at(j) < r.at(j + 1)),
+                   S.forall(0, r.n, lambda j: S.And(0 <= r.at(j), r.at(j) < S.max(d.n, 1))))),
+            ("each one after the first follows a gap larger than min_gap to EVERY earlier row (so a split half-way into the gap cuts no row)",
+             S.forall(1, r.n, lambda j: S.forall(0, d.n, lambda x: S.Implies(x < r.at(j), d.f("endtime", x) + a.min_gap < d.f("time", r.at(j))))))]
+
+
+get_splits = REG.add(Contract(
+    "strax/chunk.py", "Rechunker.get_splits",
+    params=dict(data=INTERVALS, target_size="int", min_gap="int"),
+    requires=lambda S, a: [("rows sorted by time with positive duration", S.And(sorted_by_time(S, a.data), positive_duration(S, a.data))),
+                           ("sizes are not negative", S.And(a.target_size >= 0, a.min_gap >= 0))],
+    ensures=_gs_ens,
+    raises={"ValueError": lambda S, a: S.true},
+    calls={"np.argwhere": _argwhere, "np.array": _np_array_of_list},
+    attrs={"data.itemsize": lambda eng, st, fr, k, node: (lambda x: k(x, st.assume(x >= 1)))(eng.fresh("itemsize"))},
+    consts={"DEFAULT_CHUNK_SPLIT_NS": z3.IntVal(MIN_GAP)},
+    loops={1: Loop(_gs_inv)},
+    local_sorts={"split_indices": ListT("int")},
+    static=True, returns=ArrT("int"),
+))
